@@ -47,7 +47,8 @@ func loadProps() (map[string]*PropConfig, error) {
 }
 
 // known_findings.txt lines:  finding: property=C20 obligation=<name> :: <what fails>
-//                            fixed: property=C20 <commit> <what failed>
+//
+//	fixed: property=C20 <commit> <what failed>
 func loadFindings() []Finding {
 	b, err := os.ReadFile(filepath.Join(verifRoot(), "known_findings.txt"))
 	if err != nil {
